@@ -52,7 +52,7 @@ fn unesc(s: &str) -> String {
 fn esc(s: &str) -> String {
     let mut o = String::new();
     for c in s.chars() {
-        if c.is_ascii_graphic() && c != ',' && c != '^' && c != '_' {
+        if c.is_ascii_graphic() && c != ',' && c != '^' && c != '_' && c != '~' {
             o.push(c);
         } else {
             o.push_str(&format!("^{:04X}", c as u32));
@@ -65,14 +65,14 @@ fn items(s: &str) -> Vec<String> {
     if s == "_" {
         vec![]
     } else {
-        s.split(',').map(unesc).collect()
+        s.split(',').map(|x| if x == "~" { String::new() } else { unesc(x) }).collect()
     }
 }
 fn unitems(v: &[String]) -> String {
     if v.is_empty() {
         "_".into()
     } else {
-        v.iter().map(|s| esc(s)).collect::<Vec<_>>().join(",")
+        v.iter().map(|s| if s.is_empty() { "~".to_string() } else { esc(s) }).collect::<Vec<_>>().join(",")
     }
 }
 fn dots<T: std::fmt::Display>(v: &[T]) -> String {
@@ -135,6 +135,8 @@ fn run_word<L: LowerCaser>(h: &Hyphenator, lc: &L, w: &str) -> WordRun {
 struct C13 {
     repo: String,
     plain_files: Option<(Vec<String>, Vec<String>)>,
+    verif: String,
+    plain_data_diff: Vec<String>,
     text_words: Vec<String>,
 }
 
@@ -147,14 +149,34 @@ const TEST_WORDS: &[&str] = &[
 ];
 
 impl C13 {
+    /// Plain TeX's patterns and exceptions for the *model*: the pinned copy of the (frozen)
+    /// `hyphen.tex` data under `harness/corpus/C13/`, not the files of the tree under test —
+    /// the real side uses `Hyphenator::plain_tex_en_us()`, i.e. whatever the crate ships.
     fn plain(&mut self) -> &(Vec<String>, Vec<String>) {
         if self.plain_files.is_none() {
-            let dir = format!("{}/crates/hyphenate/src", self.repo);
-            let p = std::fs::read_to_string(format!("{dir}/plain_tex_patterns.txt")).expect("plain_tex_patterns.txt");
-            let e = std::fs::read_to_string(format!("{dir}/plain_tex_exceptions.txt")).expect("plain_tex_exceptions.txt");
+            let dir = format!("{}/harness/corpus/C13", self.verif);
+            let p = std::fs::read_to_string(format!("{dir}/plain_tex_patterns.txt")).expect("pinned plain_tex_patterns.txt");
+            let e = std::fs::read_to_string(format!("{dir}/plain_tex_exceptions.txt")).expect("pinned plain_tex_exceptions.txt");
             let ps = p.split_whitespace().map(|s| s.to_string()).collect();
             let es = e.lines().map(|l| l.trim()).filter(|l| !l.is_empty()).map(|s| s.to_string()).collect();
             self.plain_files = Some((ps, es));
+            // the shipped data files must be the pinned ones (reported once, with the first plain case)
+            let rdir = format!("{}/crates/hyphenate/src", self.repo);
+            for f in ["plain_tex_patterns.txt", "plain_tex_exceptions.txt"] {
+                let a = std::fs::read_to_string(format!("{rdir}/{f}")).unwrap_or_default();
+                let b = std::fs::read_to_string(format!("{dir}/{f}")).unwrap_or_default();
+                if a != b {
+                    let (mut la, mut lb) = (a.lines(), b.lines());
+                    let mut n = 1;
+                    let d = loop {
+                        match (la.next(), lb.next()) {
+                            (Some(x), Some(y)) if x == y => n += 1,
+                            (x, y) => break format!("line {n}: crate has {:?}, hyphen.tex has {:?}", x, y),
+                        }
+                    };
+                    self.plain_data_diff.push(format!("{f} differs from the pinned hyphen.tex data ({d})"));
+                }
+            }
         }
         self.plain_files.as_ref().unwrap()
     }
@@ -293,6 +315,14 @@ impl C13 {
         if r.chance(1, 12) {
             s.push('-');
         }
+        if r.chance(1, 10) {
+            // an entry with a character that is neither a letter of the alphabet nor a hyphen: it
+            // is a different word (only `-` is markup), so it must not apply to `w`
+            let cs: Vec<char> = s.chars().collect();
+            let k = r.below(cs.len() as u64 + 1) as usize;
+            let x = *r.pick(&['.', '1', 'A', '\'', '=']);
+            s = cs[..k].iter().chain(std::iter::once(&x)).chain(cs[k..].iter()).collect();
+        }
         s
     }
 
@@ -363,6 +393,9 @@ impl C13 {
             }
         }
         let mut words: Vec<String> = base_words.iter().map(|w| Self::mix_case(r, w, table)).collect();
+        if r.chance(1, 40) {
+            words.push(String::new());
+        }
         if r.chance(1, 8) {
             // a non-letter inside a word (outside the quantifier: I vs M only)
             let w = r.pick(&base_words).clone();
@@ -463,6 +496,11 @@ impl Property for C13 {
             "h a a1b1c _ ab-c,abc,a1bc,abc.,^00E9abc".into(),
             "h t ^00E91a1b,b1^00E9. a-^00E9b ^00C9ab,a^00E9b,!^00C9?,b^00C9,ab^00DF".into(),
             "h t a1b1c _ !?+,Ab+,+!?".into(),
+            // the empty word, the empty exception (`~` = empty item), an exception that is only a hyphen
+            "h a 1a,.a.,.1.,. ~,-,a- ~,a,aa".into(),
+            "h a a1 _ ~".into(),
+            // only `-` is markup in an exception entry
+            "h a 1b a.b,b=a,a1b ab,ba".into(),
         ];
         // zero runs and long patterns
         for n in [14usize, 15, 16, 17, 18, 31, 32, 33, 34, 40] {
@@ -479,6 +517,7 @@ impl Property for C13 {
 
     fn generate(&mut self, ctx: &Ctx, rng: &mut Rng) -> Vec<String> {
         self.repo = ctx.repo.clone();
+        self.verif = ctx.verif.clone();
         self.load_text_words();
         let mut v = vec![];
         let words30 = Self::all_words(&['a', 'b'], 4).join(",");
@@ -561,21 +600,71 @@ impl Property for C13 {
         let mut out = CaseOutcome::default();
         let mut p = parse_case(case);
         if p.plain {
-            if self.repo.is_empty() {
-                self.repo = parse_args().repo;
+            if self.repo.is_empty() || self.verif.is_empty() {
+                let a = parse_args();
+                self.repo = a.repo;
+                self.verif = a.verif;
             }
             let (ps, es) = self.plain().clone();
             p.pats = ps;
             p.excs = es;
+            for d in std::mem::take(&mut self.plain_data_diff) {
+                out.fail(Kind::ImplVsModel, "plain-data", "shipped plain TeX data file differs from hyphen.tex", d);
+            }
         }
         // ---- I: the real code ----
         let built = caught(|| {
             if p.plain {
                 Hyphenator::plain_tex_en_us()
             } else {
+                // glue: the separators, padding, blank lines and the split into several calls are
+                // derived from the case string (same case = same calls)
+                let mut g = Rng::new(fxhash(case));
                 let mut h: Hyphenator = Default::default();
-                h.load_patterns(&p.pats.join(" "));
-                h.insert_exceptions(&p.excs.join("\n"));
+                let ws = [" ", "\n", "\t", "  ", " \n ", "\r\n", "\u{c}"];
+                let cut = if p.pats.len() > 1 && g.chance(1, 3) { 1 + g.below(p.pats.len() as u64 - 1) as usize } else { p.pats.len() };
+                for part in [&p.pats[..cut], &p.pats[cut..]] {
+                    let mut text = String::new();
+                    if g.chance(1, 4) {
+                        text.push_str(*g.pick(&ws));
+                    }
+                    for (i, q) in part.iter().enumerate() {
+                        if i > 0 {
+                            text.push_str(if g.chance(2, 3) { " " } else { *g.pick(&ws) });
+                        }
+                        text.push_str(q);
+                    }
+                    if g.chance(1, 4) {
+                        text.push_str(*g.pick(&ws));
+                    }
+                    if !part.is_empty() || g.chance(1, 2) {
+                        h.load_patterns(&text);
+                    }
+                }
+                if g.chance(1, 4) {
+                    for e in &p.excs {
+                        h.insert_exception(e);
+                    }
+                } else {
+                    let mut text = String::new();
+                    for e in &p.excs {
+                        if g.chance(1, 6) {
+                            text.push_str(*g.pick(&["\n", "  \n", "\t\n", "\r\n"]));
+                        }
+                        if g.chance(1, 4) {
+                            text.push_str(*g.pick(&[" ", "\t", "  "]));
+                        }
+                        text.push_str(e);
+                        if g.chance(1, 4) {
+                            text.push_str(*g.pick(&[" ", "\t", "  "]));
+                        }
+                        text.push_str(if g.chance(1, 6) { "\r\n" } else { "\n" });
+                    }
+                    if g.chance(1, 2) && text.ends_with('\n') {
+                        text.pop();
+                    }
+                    h.insert_exceptions(&text);
+                }
                 h
             }
         });
@@ -642,7 +731,7 @@ impl Property for C13 {
             if is_exc {
                 out.tag(if hi_digit { "word:listed-exception+pattern-digit-7..9" } else { "word:listed-exception" });
             }
-            let sig_exc = if hi_digit { "listed exception overridden by a pattern digit 7..9" } else { "listed exception not returned as listed" };
+            let sig_exc = "listed exception not returned as listed";
             let ctx = |what: &str| format!("{what}\nword: {w}\nlc: {}\npatterns: {}\nexceptions: {}", p.lc, if p.plain { "plain TeX".into() } else { unitems(&p.pats) }, if p.plain { "plain TeX".into() } else { unitems(&p.excs) });
             // panics
             let idx = match &run.indices {
@@ -664,7 +753,7 @@ impl Property for C13 {
             } else {
                 out.tag("result:no-hyphen");
             }
-            // I vs M: aggregate scores (parity only for listed exceptions: the patch changes their encoding)
+            // I vs M: indices and the full aggregate score vector
             let i_idx = dots(idx);
             if i_idx != m_idx {
                 let sig = if is_exc { sig_exc.to_string() } else { "indices differ".to_string() };
@@ -675,7 +764,7 @@ impl Property for C13 {
                     if let Some(mx) = s.iter().max() {
                         out.tag(format!("score-max:{}", mx));
                     }
-                    if !is_exc && dots(s) != m_scores {
+                    if dots(s) != m_scores {
                         out.fail(Kind::ImplVsModel, "scores", "aggregate scores differ", ctx(&format!("impl scores: {}\nmodel scores: {m_scores}", dots(s))));
                     }
                     let odd: Vec<usize> = s.iter().enumerate().filter(|(_, x)| *x % 2 != 0).map(|(i, _)| i).collect();
@@ -703,6 +792,30 @@ impl Property for C13 {
             }
             // I vs S and M vs S (inside the quantifier)
             if in_quantifier && verdict != "-" {
+                // the two other public views of the same positions: the string `hypthenate` builds
+                // (a word of letters contains no `-` of its own) and the odd entries of
+                // `calculate_explanation().aggregate_scores`
+                if let Ok(hs) = &run.hyphenated {
+                    let mut pos = vec![];
+                    let mut i = 0usize;
+                    for c in hs.chars() {
+                        if c == '-' {
+                            pos.push(i);
+                        } else {
+                            i += 1;
+                        }
+                    }
+                    let letters: String = hs.chars().filter(|c| *c != '-').collect();
+                    if dots(&pos) != s_idx || letters != *w {
+                        out.fail(Kind::ImplVsSpec, "hypthenate", "hypthenate: hyphens not exactly at the specified positions", ctx(&format!("hypthenate: {hs}\nspec indices: {s_idx}")));
+                    }
+                }
+                if let Ok(sc) = &run.scores {
+                    let odd: Vec<usize> = sc.iter().enumerate().filter(|(_, x)| *x % 2 != 0).map(|(i, _)| i).collect();
+                    if dots(&odd) != s_idx {
+                        out.fail(Kind::ImplVsSpec, "explanation", "calculate_explanation: odd aggregate scores not exactly at the specified positions", ctx(&format!("scores: {}\nspec indices: {s_idx}", dots(sc))));
+                    }
+                }
                 if verdict != "1" {
                     let sig = if is_exc { sig_exc.to_string() } else { "positions differ from Liang's definition".to_string() };
                     out.fail(Kind::ImplVsSpec, "spec", sig, ctx(&format!("impl indices: {i_idx}\nspec indices: {s_idx}")));
@@ -840,5 +953,5 @@ impl C13 {
 }
 
 fn main() {
-    run(C13 { repo: String::new(), plain_files: None, text_words: vec![] });
+    run(C13 { repo: String::new(), plain_files: None, text_words: vec![], verif: String::new(), plain_data_diff: vec![] });
 }
